@@ -3786,7 +3786,8 @@ fn iterate<'a>(
                 }
                 out.push(m);
             }
-            Err(_) => break,
+            // keep pulling: a consumer that skips errors must come to an end too
+            Err(_) => continue,
         }
     }
     let mut n = 0usize;
@@ -3799,7 +3800,8 @@ fn iterate<'a>(
             ));
         }
         if t.is_err() {
-            break;
+            // keep pulling: a consumer that skips errors must come to an end too
+            continue;
         }
     }
     Ok(())
@@ -3909,8 +3911,9 @@ fn probe_reencode_iter(data: &[u8]) -> Result<(), String> {
         match t {
             Ok(t) => out.extend(t.bytes_iter()),
             Err(_) => {
+                // keep pulling: a consumer that skips errors must come to an end too
                 ok = false;
-                break;
+                continue;
             }
         }
     }
@@ -3946,7 +3949,8 @@ fn probe_lazy_containers(data: &[u8]) -> Result<(), String> {
                 return Err(format!("iteration-unbounded:{what}: more than {limit} items"));
             }
             if m.is_err() {
-                break;
+                // keep pulling: a consumer that skips errors must come to an end too
+                continue;
             }
         }
         Ok(())
@@ -4040,7 +4044,8 @@ fn drain_array<'a, T: FromTLV<'a> + std::fmt::Debug>(
                     let _ = write!(sink, "{m:?}");
                     sink.check("Debug(array item)")?;
                 }
-                Err(_) => break,
+                // keep pulling: a consumer that skips errors must come to an end too
+                Err(_) => continue,
             }
         }
     }
